@@ -163,6 +163,12 @@ def concCase (subject k : String) (args : List Sexp) : Option String := do
     let (s, ps) := olSim.phases fuel (olInit n g script) choices []
     let res := List.replicate (s.retExec + s.retSkip) (resStr .zero) ++ s.panicked.map (fun p => resStr (.panic p))
     pure (concObs ps res s.execs)
+  | "oplimitf" =>
+    let (s, ps) := olForced fuel (olInit n g script) choices []
+    let res := List.replicate (s.retExec + s.retSkip) (resStr .zero) ++ s.panicked.map (fun p => resStr (.panic p))
+    let maxc := ps.foldl (fun m p => max m p.2.1) 0
+    let ph := "".intercalate (ps.map (fun p => s!"({p.1},{p.2.1},{p.2.2})"))
+    pure s!"ph={ph}|res={",".intercalate (sortStr res)}|inv={s.execs}|maxc={maxc}"
   | "lock" =>
     let kind ← kindOf k
     let (s, ps) := lkSim.phases fuel (lkInit kind g script) choices []
@@ -201,6 +207,7 @@ def resOf (s : String) : Option Res :=
 def obsOfSexp (args : List Sexp) : Option Obs := do
   let ph ← (← section? "ph" args).mapM (fun p => match p with
     | .list [a, b] => do pure ((← a.nat?), (← b.nat?))
+    | .list [a, b, _] => do pure ((← a.nat?), (← b.nat?))
     | _ => none)
   let res ← ((← section? "res" args).filterMap Sexp.atom?).mapM resOf
   pure { phases := ph, results := res, inv := natArg "inv" args 0, maxc := natArg "maxc" args 0 }
@@ -212,7 +219,7 @@ def allowedCase (subject k : String) (args : List Sexp) (o : Obs) : Option Bool 
   match subject with
   | "once" => do pure (allowedOnce (← onceKind k) g script o)
   | "limit" => pure (allowedLimit n g o)
-  | "oplimit" => pure (allowedOpLimit n g o)
+  | "oplimit" | "oplimitf" => pure (allowedOpLimit n g o)
   | "lock" => pure (allowedLock g o)
   | "oplaunch" | "opsignal" | "wlaunch" | "wsignal" | "wbackground" | "pbackground" | "xbackground" => pure (allowedBg g o)
   | "opstartgroup" | "wstartgroup" => pure (allowedSg n g o)
